@@ -298,21 +298,60 @@ theorem word_end (acc r : Str) (h : identFollow r = true) :
       simp [stepN, stepWord, hc.1, hc.2, emitThen]
 
 theorem topStep_ascii_table :
-    ∀ n : Fin 128, isAsciiIdentStart (Char.ofNat n) = true → topStep (Char.ofNat n) = ([], .word [Char.ofNat n]) := by
+    ∀ n : Fin 128, isIdentStart (Char.ofNat n) = true → topStep (Char.ofNat n) = ([], .word [Char.ofNat n]) := by
   decide
 
-theorem asciiIdentStart_lt (c : Char) (h : isAsciiIdentStart c = true) : c.toNat < 128 := by
-  simp only [isAsciiIdentStart, isAsciiLetter, Bool.or_eq_true, Bool.and_eq_true, decide_eq_true_eq, beq_iff_eq] at h
-  rcases h with (h | h) | h
-  · omega
-  · omega
-  · subst h; decide
+theorem ne_of_toNat_lt {c d : Char} (hc : 128 ≤ c.toNat) (hd : d.toNat < 128) : c ≠ d := by
+  intro e; subst e; omega
 
-theorem topStep_identStart (c : Char) (h : isAsciiIdentStart c = true) : topStep c = ([], .word [c]) := by
-  have hlt := asciiIdentStart_lt c h
-  have := topStep_ascii_table ⟨c.toNat, hlt⟩
-  simp only [Char.ofNat_toNat] at this
-  exact this h
+theorem topStep_nonascii (c : Char) (h : 128 ≤ c.toNat) : topStep c = ([], .word [c]) := by
+  have n := fun (d : Char) (hd : d.toNat < 128) => ne_of_toNat_lt h hd
+  have hs : isSpace c = false := by
+    simp [isSpace, n ' ' (by decide), n '\t' (by decide), n '\n' (by decide), n '\r' (by decide),
+      n '\x0c' (by decide), n '\x0b' (by decide)]
+  have ho : isOpChar c = false := by
+    simp [isOpChar, n '~' (by decide), n '!' (by decide), n '@' (by decide), n '#' (by decide), n '^' (by decide),
+      n '&' (by decide), n '|' (by decide), n '`' (by decide), n '?' (by decide), n '+' (by decide), n '-' (by decide),
+      n '*' (by decide), n '/' (by decide), n '%' (by decide), n '<' (by decide), n '>' (by decide), n '=' (by decide)]
+  have hd : isDigit c = false := by
+    simp only [isDigit, Bool.and_eq_false_iff, decide_eq_false_iff_not]; omega
+  have hi : isIdentStart c = true := by
+    simp only [isIdentStart, Bool.or_eq_true, decide_eq_true_eq]; exact Or.inr h
+  simp [topStep, hs, ho, hd, hi, n '\'' (by decide), n '"' (by decide), n '$' (by decide), n '@' (by decide),
+    n '-' (by decide), n '/' (by decide)]
+
+theorem topStep_identStart (c : Char) (h : isIdentStart c = true) : topStep c = ([], .word [c]) := by
+  by_cases hlt : c.toNat < 128
+  · have := topStep_ascii_table ⟨c.toNat, hlt⟩
+    simp only [Char.ofNat_toNat] at this
+    exact this h
+  · exact topStep_nonascii c (by omega)
+
+theorem identStart_ne_nul (c : Char) (h : isIdentStart c = true) : c ≠ NUL := by
+  intro e; subst e; revert h; decide
+
+theorem lex_bare_ident (c : Char) (cs r : Str) (hc : isIdentStart c = true)
+    (hcs : ∀ d ∈ cs, isIdentCont d = true) (hr : identFollow r = true) :
+    lex (c :: cs ++ r) = .word (c :: cs) :: lex r := by
+  unfold lex
+  simp only [List.cons_append]
+  rw [go_top_cons _ _ (identStart_ne_nul c hc), topStep_identStart c hc]
+  simp only [List.nil_append]
+  rw [word_body cs [c] r hcs, word_end _ _ hr]
+  simp
+
+theorem cypherBare_parts (s : Str) (h : cypherBare s = true) :
+    ∃ c cs, s = c :: cs ∧ isIdentStart c = true ∧ ∀ d ∈ cs, isIdentCont d = true := by
+  cases s with
+  | nil => simp [cypherBare] at h
+  | cons c cs =>
+    simp only [cypherBare, Bool.and_eq_true, List.all_eq_true] at h
+    exact ⟨c, cs, rfl, h.1, h.2⟩
+
+theorem asciiIdentStart_identStart (c : Char) (h : isAsciiIdentStart c = true) : isIdentStart c = true := by
+  simp only [isAsciiIdentStart, Bool.or_eq_true] at h
+  simp only [isIdentStart, Bool.or_eq_true]
+  exact Or.inl h
 
 theorem asciiIdentCont_identCont (c : Char) (h : isAsciiIdentCont c = true) : isIdentCont c = true := by
   simp only [isAsciiIdentCont, Bool.or_eq_true] at h
@@ -322,32 +361,25 @@ theorem asciiIdentCont_identCont (c : Char) (h : isAsciiIdentCont c = true) : is
   · exact Or.inl (Or.inl (Or.inl (Or.inr h)))
   · exact Or.inl (Or.inr h)
 
-theorem asciiIdentStart_ne_nul (c : Char) (h : isAsciiIdentStart c = true) : c ≠ NUL := by
-  intro e; subst e; revert h; decide
-
-theorem lex_bare_ident (c : Char) (cs r : Str) (hc : isAsciiIdentStart c = true)
-    (hcs : ∀ d ∈ cs, isAsciiIdentCont d = true) (hr : identFollow r = true) :
-    lex (c :: cs ++ r) = .word (c :: cs) :: lex r := by
-  unfold lex
-  simp only [List.cons_append]
-  rw [go_top_cons _ _ (asciiIdentStart_ne_nul c hc), topStep_identStart c hc]
-  simp only [List.nil_append]
-  rw [word_body cs [c] r (fun d hd => asciiIdentCont_identCont d (hcs d hd)), word_end _ _ hr]
-  simp
-
-theorem identSafe_parts (s : Str) (h : identSafe s = true) :
-    ∃ c cs, s = c :: cs ∧ isAsciiIdentStart c = true ∧ ∀ d ∈ cs, isAsciiIdentCont d = true := by
+theorem identSafe_cypherBare (s : Str) (h : identSafe s = true) : cypherBare s = true := by
   cases s with
   | nil => simp [identSafe] at h
   | cons c cs =>
     simp only [identSafe, Bool.and_eq_true, List.all_eq_true] at h
-    exact ⟨c, cs, rfl, h.1.1, h.1.2⟩
+    simp only [cypherBare, Bool.and_eq_true, List.all_eq_true]
+    exact ⟨asciiIdentStart_identStart c h.1.1, fun d hd => asciiIdentCont_identCont d (h.1.2 d hd)⟩
 
-theorem ident_in_context (pre s post : Str) (hpre : (run .top pre).2 = .top) (h : identSafe s = true)
+/-- a bare symbol does not start with a back-tick, so both emitters write it verbatim -/
+theorem emitIdent_bare (s : Str) (h : cypherBare s = true) : emitIdent s = s := by
+  obtain ⟨c, cs, rfl, hc, _⟩ := cypherBare_parts s h
+  have hne : c ≠ '`' := by intro e; subst e; revert hc; decide
+  simp [emitIdent, hne]
+
+theorem bare_in_context (pre s post : Str) (hpre : (run .top pre).2 = .top) (h : cypherBare s = true)
     (hpost : identFollow post = true) :
-    lex (pre ++ emitIdent s ++ post) = (run .top pre).1 ++ .word s :: lex post := by
-  obtain ⟨c, cs, rfl, hc, hcs⟩ := identSafe_parts s h
-  unfold lex emitIdent
+    lex (pre ++ s ++ post) = (run .top pre).1 ++ .word s :: lex post := by
+  obtain ⟨c, cs, rfl, hc, hcs⟩ := cypherBare_parts s h
+  unfold lex
   rw [List.append_assoc, go_append, hpre]
   exact congrArg _ (lex_bare_ident c cs post hc hcs hpost)
 
@@ -587,6 +619,14 @@ theorem unescapeKey_escapeKeyBt_aux (s : Str) : unescapeKey (escapeKeyBt s) = s 
   unfold escapeKeyBt unescapeKey
   have h2 := utf8Len_wrapped '`' '`' (dblBt s)
   have hl := getLast?_wrapped '`' '`' (dblBt s)
+  simp only [hl]
+  rw [if_pos ⟨h2, trivial, trivial⟩, List.dropLast_concat, unBt_dblBt]
+
+/-- `formatIdentifier` on the back-ticked token of `name` writes `"name"` with `"` doubled -/
+theorem emitIdent_bt (name : Str) : emitIdent (escapeKeyBt name) = qQuote name := by
+  unfold escapeKeyBt emitIdent
+  have h2 := utf8Len_wrapped '`' '`' (dblBt name)
+  have hl := getLast?_wrapped '`' '`' (dblBt name)
   simp only [hl]
   rw [if_pos ⟨h2, trivial, trivial⟩, List.dropLast_concat, unBt_dblBt]
 
